@@ -155,6 +155,15 @@ def stepLine (sim : Sim) (line : Nat) (raw : String) : IO Sim := do
         let rootRcv := sim.st.rcvs.any (fun rc => rc.alive && rc.cell == sim.st.root)
         if rootRcv then diff sim line "send failed although a live receiver is attached to the sender's own cell" else return sim
     | _ => diff sim line "unparsable send"
+  -- oversize cases (the receiving endpoint has a smaller item-size limit than the sender): an oversized update is a
+  -- receive error for that update only; at quiescence the receiver still reads the last value sent
+  | "ovsent" :: v :: _ => return { sim with n := v.toNat?.getD sim.n, obs := sim.obs + 1 }
+  | "overr" :: rest => fail sim line s!"the receiver's channel ended although the sender is alive and the connection is up ({" ".intercalate rest}) after an oversized update"
+  | ["ovread", v] =>
+    if v.toNat? == some sim.n then return { sim with obs := sim.obs + 1 }
+    else fail sim line s!"at quiescence the receiver reads value {v}, the last value sent is {sim.n} (an oversized update in between must not end the channel)"
+  | "ovread" :: "err" :: rest =>
+    fail sim line s!"at quiescence the receiver reads an error ({" ".intercalate rest}) although the last value sent ({sim.n}) fits its limit"
   | "panic" :: rest => fail sim line ("panic in the real code or harness: " ++ " ".intercalate rest)
   | "abort" :: _ =>
     -- the harness abandoned the case (a transfer of a channel half never completed): not judged
